@@ -498,11 +498,12 @@ def r7_format(text, fired):
 
 
 def r10_array_repeat(text, fired):
+    """only in initialiser position (`= [x; N]`), never in a type"""
     def rep(m):
-        n = int(m.group(2))
-        fired.append('R10 [%s; %d] expanded' % (m.group(1), n))
-        return '[' + ', '.join([m.group(1)] * n) + ']'
-    return re.sub(r'\[\s*(\w+)\s*;\s*(\d+)\s*\]', rep, text)
+        n = int(m.group(3))
+        fired.append('R10 [%s; %d] expanded' % (m.group(2), n))
+        return m.group(1) + '[' + ', '.join([m.group(2)] * n) + ']'
+    return re.sub(r'(=\s*)\[\s*(\w+)\s*;\s*(\d+)\s*\]', rep, text)
 
 
 def rewrite_body(text, fired):
